@@ -154,7 +154,10 @@ def r20_1(ctx):
     ctx.check(ok, "for_all_primitives: an expression that is not a concatenation of symbols is rejected", detail="set_value/set_initial/set_der on an arbitrary expression", expected="else: raise", found="", fi=f)
     # 11. constant-false constraint
     f = P.own_method("OptiWrapper", "subject_to")
-    has_guard(ctx, f, lambda t, k: "np.all" in t and "==1" in t and k == "else-raise", "OptiWrapper.subject_to: constant-false constraint rejected", "constraint that is never satisfied", "else: raise", top_level=False)
+    from .c04 import subject_to_scenarios
+    tab = subject_to_scenarios(f)
+    ctx.check(tab.get("const-false") == ("raise", 0), "OptiWrapper.subject_to: constant-false constraint rejected", detail="constraint that is never satisfied",
+              expected="raise", found=str(tab.get("const-false")), fi=f)
     f = P.own_method("OptiWrapper", "transcribe_placeholders")
     sc = ctx.scope(f)
     conts = [c for c in walk_no_nested(f.node) if isinstance(c, ast.Continue)]
